@@ -162,6 +162,115 @@ def fault_points(shard, nshards, binary, tier):
     return res
 
 
+def os_faults(shard, nshards, binary, tier):
+    """The same question asked one level further down: the *kernel* refuses (EFBIG) or kills
+    (SIGXFSZ) the server at the write that takes the dump past a file-size limit set from
+    outside (RLIMIT_FSIZE through prlimit). Unlike the hooked fail points, this reaches errors
+    that surface inside buffered writers, implicit flushes on drop, and whatever else sits
+    between the code and the file. Limits: every byte offset class of a small dump (one final
+    buffer), and the neighbourhood of every 8 KB buffer boundary of a large one."""
+    import resource
+    res = Result()
+    mode = "error" if shard % 2 == 0 else "kill"
+    which = 0 if shard < 2 else 1
+    INF = resource.RLIM_INFINITY
+    srv = server.Server(binary, config_text="save \"\"\n", os_fault_mode=mode).start()
+    try:
+        c = srv.client(timeout=30)
+        seed_dataset(c, which)
+        if which == 1:
+            c.cmd("SET", "big2", "y" * 50000)
+        c.cmd("SET", "change-counter", "%09d" % 0)
+        assert c.cmd("SAVE") == OK
+        good = read_dump(srv)
+        size = len(good)
+        saved_state = snap_only(dump_all(c))
+        limits = sorted(set([0, 1, 5, 9, 10, size // 3, size // 2, size - 100, size - 9, size - 8, size - 2, size - 1] +
+                            [b + d for b in range(8192, size, 8192) for d in (-1, 0, 1)]))
+        limits = [x for x in limits if 0 <= x < size]
+        res.extra["os_fault_dump_size_ds%d" % which] = size
+        counter = 0
+        for i, lim in enumerate(limits):
+            counter += 1
+            c.cmd("SET", "change-counter", "%09d" % counter)
+            via = "SAVE" if i % 3 else "BGSAVE"
+            resource.prlimit(srv.proc.pid, resource.RLIMIT_FSIZE, (lim, INF))
+            if mode == "kill":
+                srv.expect_exit()
+            r = None
+            try:
+                if via == "SAVE":
+                    r = c.cmd("SAVE", timeout=30)
+                else:
+                    started0 = saves_started(c)
+                    r = c.cmd("BGSAVE")
+                    if not isinstance(r, Err):
+                        wait_saves_done(c, 30, started_before=started0)
+            except (Closed, Timeout, OSError):
+                r = "connection lost"
+            res.evaluations += 1
+            cls = "last-buffer" if lim >= size - (size % 8192 or 8192) else "earlier-buffer"
+            res.cell("os-fault", mode, via, cls, "ds%d" % which)
+            if mode == "error":
+                try:
+                    resource.prlimit(srv.proc.pid, resource.RLIMIT_FSIZE, (INF, INF))
+                except (ProcessLookupError, OSError):
+                    pass
+                if not srv.alive():
+                    res.violation("osfault/error/server-died", "file-size limit %d of %d bytes, SIGXFSZ ignored, %s: the server exited %s\n%s" % (
+                        lim, size, via, srv.exit_status(), srv.stderr_tail(1200)))
+                    srv.start()
+                    c = srv.client(timeout=30)
+                    continue
+                if via == "SAVE" and not isinstance(r, Err):
+                    res.violation("osfault/error/%s/error-not-reported" % cls, "the kernel refused every write beyond byte %d of a %d-byte dump (EFBIG), SAVE replied %r" % (lim, size, r))
+                now = read_dump(srv)
+                if now != good:
+                    res.violation("osfault/error/%s/dump-changed" % cls, "%s hit EFBIG at byte %d of %d, but dump.rdb changed: %d -> %s bytes" % (
+                        via, lim, size, len(good), len(now) if now is not None else None))
+                if via == "BGSAVE" and c.cmd("VERIF", "RDB", "INPROGRESS") != 0:
+                    res.violation("osfault/error/in-progress-stuck", "BGSAVE failed with EFBIG at byte %d and the in-progress flag stayed set" % lim)
+                r2 = c.cmd("SAVE", timeout=30)
+                if r2 != OK:
+                    res.violation("osfault/error/later-save-fails", "after a save that hit EFBIG at byte %d (limit lifted again), SAVE -> %r" % (lim, r2))
+                    continue
+                good = read_dump(srv)
+                saved_state = snap_only(dump_all(c))
+                if i % 5 == 0:
+                    loaded, log = load_dump_in_second_child(binary, good)
+                    res.count("dumps_loaded_and_compared")
+                    if loaded != saved_state:
+                        res.violation("osfault/error/later-dump-wrong", "after a save that hit EFBIG at byte %d the next successful SAVE loads to a different dataset" % lim)
+            else:
+                # the kernel kills the process at the offending write: a real crash point
+                t_end = time.monotonic() + 10
+                while srv.alive() and time.monotonic() < t_end:
+                    time.sleep(0.01)
+                if srv.alive():
+                    res.inconclusive.append("file-size limit %d: the server was not killed (reply %r)" % (lim, r))
+                    srv.kill()
+                now = read_dump(srv)
+                if now != good:
+                    res.violation("osfault/kill/%s/dump-changed" % cls, "%s killed by SIGXFSZ at byte %d of %d: dump.rdb changed: %d -> %s bytes" % (
+                        via, lim, size, len(good), len(now) if now is not None else None))
+                srv.start()
+                c = srv.client(timeout=30)
+                got = snap_only(dump_all(c))
+                if got != saved_state:
+                    diff = [k for k in set(got) | set(saved_state) if got.get(k) != saved_state.get(k)]
+                    res.violation("osfault/kill/restart-differs", "server killed by the kernel at byte %d of a save: after restart the dataset is not the last completed dump: %s\n%s" % (
+                        lim, resp.show([(k, saved_state.get(k), got.get(k)) for k in diff[:3]], 40), srv.stderr_tail(400)))
+                c.cmd("SET", "change-counter", "%09d" % counter)
+                if c.cmd("SAVE", timeout=30) != OK:
+                    res.violation("osfault/kill/later-save-fails", "after a restart following a kill at byte %d, SAVE failed" % lim)
+                good = read_dump(srv)
+                saved_state = snap_only(dump_all(c))
+        res.count("os_fault_limits_%s" % mode, len(limits))
+    finally:
+        srv.cleanup()
+    return res
+
+
 def abort_points(shard, nshards, binary, tier):
     """process::abort() at the n-th step: after restart the server holds exactly the last completed dump."""
     res = Result()
@@ -498,6 +607,8 @@ def _w(arg, binary, tier, nshards, seed):
         return abort_points(shard, nshards, binary, tier)
     if role == "hold":
         return directed_holds(shard, nshards, binary, tier)
+    if role == "osfault":
+        return os_faults(shard, nshards, binary, tier)
     if role == "stress":
         return stress(seed * 10 + shard, binary, 15 if tier == "quick" else 120)
     if role == "loader":
@@ -512,13 +623,13 @@ def run(tier):
     binary, bt = server.build("dev")
     rsbin.build()
     args = [("fault", i) for i in range(6)] + [("abort", i) for i in range(3)] + [("hold", i) for i in range(5)] + \
-           [("stress", 0)] + [("loader", 0)]
+           [("stress", 0)] + [("loader", 0)] + [("osfault", i) for i in range(4)]
     res = Result()
     for role, count in (("fault", 6), ("abort", 3), ("hold", 5)):
         pass
     # each role is sharded over its own number of workers
     def nsh(role):
-        return {"fault": 6, "abort": 3, "hold": 5, "stress": 1, "loader": 1}[role]
+        return {"fault": 6, "abort": 3, "hold": 5, "stress": 1, "loader": 1, "osfault": 4}[role]
     jobs = []
     for role, shard in args:
         jobs.append((role, shard))
@@ -531,7 +642,11 @@ def run(tier):
                        "A: every step of a save (open, each write, flush, rename) of two datasets as the failure point: "
                        "injected I/O error through SAVE and BGSAVE (dump.rdb must stay byte-identical, error reported, in-"
                        "progress flag cleared, next SAVE works and every 7th resulting dump is loaded in a second child and "
-                       "compared) and process abort (restart must load exactly the last completed dump); B: save thread parked "
+                       "compared) and process abort (restart must load exactly the last completed dump); A2: the same with the kernel as "
+                       "the fault source - RLIMIT_FSIZE set on the running server at every offset class of a small dump and around every "
+                       "8 KB buffer boundary of a large one, once with SIGXFSZ ignored (writes fail with EFBIG: error reported, dump "
+                       "byte-identical, flag cleared, next SAVE works) and once with the default action (the kernel kills the server at "
+                       "that write: restart loads exactly the last completed dump); B: save thread parked "
                        "at {before-get, between-get-and-ttl, after-key, zset-len-range} x six types x 11 client actions x "
                        "{TTL, no TTL}, SAVE during a parked BGSAVE, and BGSAVE in a loop under 4 writers of uniquely versioned "
                        "keys - every dump loaded in a second child, each key must be a (value, TTL-presence) pair it had at one "
